@@ -531,7 +531,7 @@ func writeEvidence(prop, tier, verif string, seed int, out *checkOutcome, perObl
 	for _, k := range sortedKeys(trusted) {
 		trustedBase = append(trustedBase, fmt.Sprintf("%s (used %d×)", k, trusted[k]))
 	}
-	var assumptions []string
+	assumptions := []string{}
 	for _, k := range sortedKeys(notes) {
 		assumptions = append(assumptions, fmt.Sprintf("%s (%d×)", k, notes[k]))
 	}
